@@ -257,6 +257,8 @@ def EW.new (dev : Dev) (guid libVersion : String) : Outcome EW := do
 def EW.registerExtension (e : EW) (ns url : String) : Outcome EW :=
   if !validName ns then .err "invalid extension namespace"
   else if e.exts.any (fun x => x.1 == ns) then .err "namespace already registered"
+  else if url == "http://www.w3.org/XML/1998/namespace" || url == "http://www.w3.org/2000/xmlns/" then
+    .err "URL reserved by XML"
   else if url.isEmpty || url == "http://www.astm.org/COMMIT/E57/2010-e57-v1.0" || e.exts.any (fun x => x.2 == url) then .err "URL already used by another namespace"
   else .ok { e with exts := e.exts ++ [(ns, url)] }
 
